@@ -41,10 +41,29 @@ def table_consistency(tier, seed):
             elif n.func.attr == "register_unstructure_hook":
                 u_hooks.add(n.args[0].id)
     out = []
+    samples = {"UUID": "12345678-1234-5678-1234-567812345678", "date": "2024-01-02", "datetime": "2024-01-02T03:04:05+00:00", "time": "03:04:05", "bytes": "aGk=",
+               "timedelta": None, "Decimal": "1.5"}
+
+    def works_natively(tname):
+        """the converter the generator ships really structures a wire value of this type and unstructures it to a JSON scalar (semantic probe: the
+        syntactic scan above only recognises direct register_*_hook(<Name>, ...) calls)"""
+        import datetime as _dt
+        import decimal as _dec
+        import uuid as _uuid
+        from pyopenapi_gen.core.cattrs_converter import converter
+        T = {"UUID": _uuid.UUID, "date": _dt.date, "datetime": _dt.datetime, "time": _dt.time, "bytes": bytes, "timedelta": _dt.timedelta, "Decimal": _dec.Decimal}.get(tname)
+        if T is None or samples.get(tname) is None:
+            return False
+        try:
+            v = converter.structure(samples[tname], T)
+            w = converter.unstructure(v)
+            return isinstance(v, T) and isinstance(w, (str, int, float))
+        except Exception:  # noqa
+            return False
     for t in sorted(types_needed):
         if t in JSON_NATIVE:
             continue
-        if t not in s_hooks or t not in u_hooks:
+        if (t not in s_hooks or t not in u_hooks) and not works_natively(t):
             out.append({"id": f"table:hook-missing:{t}", "status": "violated", "detail": f"type {t} (formats {[k for k, v in fmt.items() if v == t]}) has structure hook: {t in s_hooks}, unstructure hook: {t in u_hooks}",
                         "witness": {"type": t}})
     out.append({"id": "table:format-types-have-hooks", "status": "holds" if not out else "violated",
